@@ -53,6 +53,13 @@ theorem filterWrites_safe (name : String) (fields : List GField) (lk : Option (S
     | none => simp at hw
     | some p => simp at hw; subst hw; exact h.2
 
+theorem dropNames_safe (names : List String) (gs : GS) (h : GS.safe gs = true) : GS.safe (dropNames names gs) = true := by
+  rw [gs_safe_iff] at h ⊢
+  refine ⟨?_, h.2⟩
+  intro en hen
+  simp only [dropNames, mem_filter] at hen
+  exact h.1 en hen.1
+
 /-- **one stage**: through safe handles, a stage that does not reach writes only to objects made during the
     call, and leaves the handles safe -/
 theorem exec_safe (inp : Inp) (st : Stage) (e : Env) (he : Env.safe e = true) (hs : st.reaches = false) :
@@ -119,6 +126,18 @@ theorem exec_safe (inp : Inp) (st : Stage) (e : Env) (he : Env.safe e = true) (h
         exact he.2.1 o hd
     · simp only [exec]
       cases hd : e.docW <;> (rw [env_safe_iff]; exact he)
+  | drop srcs names =>
+    refine ⟨by simp [exec], ?_⟩
+    rw [env_safe_iff]
+    refine ⟨?_, he.2⟩
+    intro gs hgs
+    simp only [exec, mem_map] at hgs
+    obtain ⟨⟨g0, i⟩, hm, rfl⟩ := hgs
+    have h0 := he.1 g0 (fst_mem_of_mem_zipIdx hm)
+    simp only []
+    split
+    · exact dropNames_safe names g0 h0
+    · exact h0
   | reset =>
     refine ⟨by simp [exec], ?_⟩
     rw [env_safe_iff]
@@ -244,11 +263,16 @@ theorem zipLongest_NR (ls : List (List Stage)) (n : Nat) (h : ∀ l ∈ ls, NR l
 
 theorem specs_NR (cfg : Cfg) (fd : FontD) (i : Nat) (p : FSpec → Bool)
     (h : (customFilters cfg fd).all (fun s => s.kind != DC && s.kind != EXPLODE) = true) :
-    NR (((customFilters cfg fd).filter p).map (stageOfSpec (isDS cfg.fn) i)) := by
+    NR (((customFilters cfg fd).filter p).flatMap (stagesOfSpec (isDS cfg.fn) i)) := by
   intro st hst
-  simp only [mem_map, mem_filter] at hst
-  obtain ⟨s, ⟨hs, _⟩, rfl⟩ := hst
-  exact stageOfSpec_clean _ i s ((all_eq_true.mp h) s hs)
+  simp only [mem_flatMap, mem_filter] at hst
+  obtain ⟨s, ⟨hs, _⟩, hst⟩ := hst
+  unfold stagesOfSpec at hst
+  rcases mem_cons.mp hst with rfl | hst
+  · exact stageOfSpec_clean _ i s ((all_eq_true.mp h) s hs)
+  · split at hst
+    · cases hst
+    · simp at hst; subst hst; rfl
 
 theorem cleanFont_parts {cfg : Cfg} {fd : FontD} (h : cleanFont cfg fd = true) :
     fd.lib.mathPrefix = false ∧ colourTrigger fd = false ∧
@@ -268,7 +292,7 @@ theorem singlePre_NR (inp : Inp) (ttf : Bool) (f : Nat) (h : cleanFont inp.cfg (
   unfold singlePre
   simp only []
   refine NR_append (NR_append (NR_append (NR_append (NR_append (NR_append (NR_append ?_ ?_) ?_) ?_) ?_) ?_) ?_) ?_
-  · exact NR_ite (NR_filter _ _ _ _) NR_nil
+  · exact NR_ite (NR_cons rfl (NR_single rfl)) NR_nil
   · exact specs_NR _ _ _ _ h3
   · unfold explodeStage; simp [h2]; exact NR_nil
   · exact NR_filter _ _ _ _
@@ -320,7 +344,7 @@ theorem interpPre_NR (inp : Inp) (ttf : Bool) (h : cleanCfg inp = true) : NR (in
   simp only []
   refine NR_append (NR_append (NR_append (NR_append (NR_append (NR_append (NR_append (fromLayers_NR inp hi) ?_) ?_) ?_) ?_) ?_) ?_) ?_
   · exact NR_ite (NR_single (by simp [Stage.reaches, hi])) NR_nil
-  · exact NR_ite (NR_filter _ _ _ _) NR_nil
+  · exact NR_ite (NR_cons rfl (NR_single rfl)) NR_nil
   · exact zipLongest_NR _ _ hpre
   · exact NR_ite (NR_filter _ _ _ _) NR_nil
   · exact zipLongest_NR _ _ (hd _)
@@ -612,6 +636,19 @@ theorem exec_tagged (inp : Inp) (st : Stage) (e : Env) (he : Env.tagged e) (hs :
       obtain ⟨p, _, rfl⟩ := hw
       simp only [] at ho
       rw [he.2.1 o hd] at ho; cases ho
+  | drop srcs names =>
+    refine ⟨by simp [exec], ?_, he.2⟩
+    intro gs hgs
+    simp only [exec, mem_map] at hgs
+    obtain ⟨⟨g0, i⟩, hm, rfl⟩ := hgs
+    have h0 := he.1 g0 (fst_mem_of_mem_zipIdx hm)
+    simp only []
+    split
+    · refine ⟨?_, h0.2⟩
+      intro en hen ho
+      simp only [dropNames, mem_filter] at hen
+      exact h0.1 en hen.1 ho
+    · exact h0
   | reset =>
     refine ⟨by simp [exec], ?_, ?_, rfl⟩
     · intro gs hgs; simp [exec] at hgs
@@ -656,11 +693,16 @@ theorem stageOfSpec_NA (ds : Bool) (i : Nat) (s : FSpec) : (stageOfSpec ds i s).
     · rfl
     · split <;> rfl
 
-theorem specsNA (l : List FSpec) (ds : Bool) (i : Nat) : NA (l.map (stageOfSpec ds i)) := by
+theorem specsNA (l : List FSpec) (ds : Bool) (i : Nat) : NA (l.flatMap (stagesOfSpec ds i)) := by
   intro st hst
-  simp only [mem_map] at hst
-  obtain ⟨s, _, rfl⟩ := hst
-  exact stageOfSpec_NA ds i s
+  simp only [mem_flatMap] at hst
+  obtain ⟨s, _, hst⟩ := hst
+  unfold stagesOfSpec at hst
+  rcases mem_cons.mp hst with rfl | hst
+  · exact stageOfSpec_NA ds i s
+  · split at hst
+    · cases hst
+    · simp at hst; subst hst; rfl
 
 theorem zipLongest_NA (ls : List (List Stage)) (n : Nat) (h : ∀ l ∈ ls, NA l) : NA (zipLongest ls n) := by
   induction n generalizing ls with
@@ -692,7 +734,7 @@ theorem singlePre_NA (inp : Inp) (ttf : Bool) (f : Nat) : NA (singlePre inp ttf 
   unfold singlePre
   simp only []
   refine NA_append (NA_append (NA_append (NA_append (NA_append (NA_append (NA_append ?_ ?_) ?_) ?_) ?_) ?_) ?_) ?_
-  · exact NA_ite (NA_filter _ _ _ _) NA_nil
+  · exact NA_ite (NA_cons rfl (NA_single rfl)) NA_nil
   · exact specsNA _ _ _
   · exact explodeStage_NA _ _ _ _
   · exact NA_filter _ _ _ _
@@ -725,7 +767,7 @@ theorem interpPre_NA (inp : Inp) (ttf : Bool) (h : inp.cfg.inplace = false) : NA
     obtain ⟨s, _, rfl⟩ := hst
     simp [Stage.aliasing, h]
   · exact NA_ite (NA_single (by simp [Stage.aliasing, h])) NA_nil
-  · exact NA_ite (NA_filter _ _ _ _) NA_nil
+  · exact NA_ite (NA_cons rfl (NA_single rfl)) NA_nil
   · exact zipLongest_NA _ _ (perSource_NA inp _ (fun i f => specsNA _ _ _))
   · exact NA_ite (NA_filter _ _ _ _) NA_nil
   · exact zipLongest_NA _ _ (perSource_NA inp _ (fun i f => explodeStage_NA inp i f _))
@@ -800,7 +842,7 @@ def witnessColor : Inp :=
 
 /-- dotted circle filter with a categories dict and no GDEF table -/
 def witnessDC : Inp :=
-  { cfg := { fn := .ttf, sources := [(0, none)], filtersArg := some [some ⟨DC, true⟩] },
+  { cfg := { fn := .ttf, sources := [(0, none)], filtersArg := some [some { kind := DC, pre := true }] },
     fonts := [{ default := "public.default", layers := [⟨"public.default", [gA, gMark]⟩],
                 lib := { categories := true } }] }
 
@@ -823,7 +865,7 @@ def witnessPropagate : Inp :=
   let fd : FontD := { default := "public.default",
                       layers := [⟨"public.default", [gA, { name := "one", contours := true, comps := ["a"] },
                                                      { name := "period", comps := ["one"] }]⟩],
-                      lib := { filters := [⟨"PropagateAnchorsFilter", true⟩] } }
+                      lib := { filters := [{ kind := "PropagateAnchorsFilter", pre := true }] } }
   { cfg := { fn := .iotfsDS, sources := [(0, none), (1, none)], dsNamed := [true, true] }, fonts := [fd, fd] }
 
 /-- **the defect repaired by /repo commit 61a81a2** (OLD pipeline, kept for the record): before that commit the
@@ -855,22 +897,38 @@ example : ((leaksAll { witnessPropagate with cfg := { witnessPropagate.cfg with 
 /-- the same fonts and filter through the list API (no Instantiator): nothing leaks -/
 example : leaksAll { witnessPropagate with cfg := { witnessPropagate.cfg with fn := .ittfs } } = [] := by decide
 
+/-- the glyph set's *content* matters for the colour-layer leak: `period.color2` exists as an ordinary glyph (the
+    filter would raise on the name clash and alias nothing), but it is not exported — SkipExportGlyphsFilter
+    deletes it from the glyph set first, so the filter does put the caller's `color2/period` into the glyph set and
+    the later in-place stages (decompose, …) reach it -/
+def witnessClash (skip : List String) : Inp :=
+  { cfg := { fn := .otf, sources := [(0, none)], skipArg := some skip },
+    fonts := [{ default := "public.default",
+                layers := [⟨"public.default", [{ name := "period", contours := true, colorMap := some ["color2"] },
+                                               { name := "period.color2", contours := true }]⟩,
+                           ⟨"color2", [{ name := "period", contours := true }]⟩],
+                lib := { palettes := true } }] }
+
+example : ((leaksAll (witnessClash ["period.color2"])).map (·.cell)).contains ⟨.glyph 0 "color2" "period", "outline"⟩ = true := by
+  decide
+example : (leaksAll (witnessClash [])).map (·.cell) = [⟨.fontLib 0, CL_KEY⟩] := by decide
+
 /-! ### non-vacuity of the main theorems -/
 
 /-- a two-master variable TTF build with kerning-less plain fonts, custom filters and all the options on -/
 def cleanExample : Inp :=
   { cfg := { fn := .vttf, removeOverlaps := true, flattenComponents := true, sources := [(0, none), (1, none), (0, some "support")],
-             filtersArg := some [none, some ⟨"ProbeFilter", false⟩, some ⟨"TransformationsFilter", true⟩],
+             filtersArg := some [none, some { kind := "ProbeFilter", pre := false }, some { kind := "TransformationsFilter", pre := true }],
              dsSkip := ["c"], dsNamed := [true, false, false] },
     fonts := [{ default := "public.default",
                 layers := [⟨"public.default", [gA, gMark, { name := "c", comps := ["a"] }]⟩, ⟨"support", [gA]⟩],
-                lib := { filters := [⟨"DecomposeTransformedComponentsFilter", true⟩], skipExport := ["c"] } },
+                lib := { filters := [{ kind := "DecomposeTransformedComponentsFilter", pre := true }], skipExport := ["c"] } },
               { default := "foreground", layers := [⟨"foreground", [gA, gMark, { name := "c", comps := ["a"] }]⟩] }] }
 
 example : cleanCfg cleanExample = true := by decide
-example : (pipeline cleanExample).length = 31 := by decide
+example : (pipeline cleanExample).length = 32 := by decide
 set_option maxRecDepth 4000 in
-example : (trace cleanExample 31).length = 142 := by decide
+example : (trace cleanExample 32).length = 108 := by decide
 example : leaksAll cleanExample = [] := C07_leaks_nil _ _ (C07_signatures _ (by decide))
 example : witnessColor.cfg.inplace = false ∧ (leaksAll witnessColor).length = 7 := by decide
 
